@@ -15,7 +15,7 @@ import (
 
 func init() {
 	Registry["C06"] = Set{
-		Explanation: "Decides structural clauses of registry integrity: G1 every insert into the node's identity tables (names, aliases, events) is a LoadOrStore whose 'already present' edge returns an error without side effects on the table; a plain Store is accepted only for keys minted in the same function from the node's counters (pid from nextID, meta alias from MakeRef); G2 the id counters are modified only by atomic add, a PID carries the untruncated counter, and the tuple of Ref.ID words written by MakeRef is an injective function of the 64-bit counter (bit provenance: every counter bit is copied to some ID bit); G3 unregisterProcess reaches on every path the delete of the pid, of the registered name, of every alias, of every event, the exit of every meta process, the drain of relations targeting each of those identities and the drain of relations held BY the process; G4 remove-by-swap on slices overwrites the found slot with the element that is then dropped; G5 the per-process registered flag is claimed by CAS before the name insert and rolled back when the insert loses, and cleared when the name is removed. Added while probing: G3m at every meta-process teardown site the alias is deleted from the alias table before the Terminate callback; G5 requires a compare-and-swap for a process that is already published. G3o in the process release function every delete of the name, aliases and events precedes the first termination notice; G3 now requires delete and drain each for every element on every path (same loop body or separate complete walks).",
+		Explanation: "Decides structural clauses of registry integrity: G1 every insert into the node's identity tables (names, aliases, events) is a LoadOrStore whose 'already present' edge returns an error without side effects on the table; a plain Store is accepted only for keys minted in the same function from the node's counters (pid from nextID, meta alias from MakeRef); G2 the id counters are modified only by atomic add, a PID carries the untruncated counter, and the tuple of Ref.ID words written by MakeRef is an injective function of the 64-bit counter (bit provenance: every counter bit is copied to some ID bit); G3 unregisterProcess reaches on every path the delete of the pid, of the registered name, of every alias, of every event, the exit of every meta process, the drain of relations targeting each of those identities and the drain of relations held BY the process; G4 remove-by-swap on slices overwrites the found slot with the element that is then dropped; G5 the per-process registered flag is claimed by CAS before the name insert and rolled back when the insert loses, and cleared when the name is removed. Added while probing: G3m at every meta-process teardown site the alias is deleted from the alias table before the Terminate callback; G5 requires a compare-and-swap for a process that is already published. G3o in the process release function every delete of the name, aliases and events precedes the first termination notice; G3 now requires delete and drain each for every element on every path (same loop body or separate complete walks). G3r where a meta process is entered into its owner's table the owner's liveness is looked at again after the insert (insert-then-check against the terminator's mark-dead-then-walk) and on the dead edge the new meta process is pushed an exit message and woken.",
 		NotDecided: []string{
 			"uniqueness across the 2^64 wrap of the counters",
 			"process listings racing with termination",
@@ -40,6 +40,7 @@ func runC06(p *load.Program, r *core.Report) {
 	c06SwapDelete(a, r)
 	c06NameFlag(a, r)
 	c06MetaRelease(a, r)
+	c06MetaRegistration(a, r)
 	c06ReleaseOrder(a, r)
 }
 
@@ -1127,3 +1128,124 @@ func c06NameFlag(a *Anchors, r *core.Report) {
 }
 
 var _ = load.Module
+
+// c06MetaRegistration: G3r — a meta process can be spawned by another meta process, i.e. from a
+// goroutine that runs concurrently with the termination of the owning process. Where a meta
+// process is entered into its owner's table, the owner's liveness is looked at AFTER the insert
+// (insert-then-check against the terminator's mark-dead-then-walk), and on the dead edge the new
+// meta process is sent its exit and woken — otherwise it is registered after the walk and never
+// stopped (its Start() runs for ever, its alias stays registered for a dead process).
+func c06MetaRegistration(a *Anchors, r *core.Report) {
+	rule := "C06.G3r meta-registered-for-a-terminating-process-is-stopped"
+	r.Floor(rule, 1)
+	exitT := int64(-1)
+	if n := a.P.Named("gen", "MailboxMessageType"); n != nil {
+		for v, name := range enumConsts(n) {
+			if name == "MailboxMessageTypeExit" {
+				exitT = v
+			}
+		}
+	}
+	for _, f := range funcsOfPkgs(a.P, "node") {
+		eachInstr(f, func(in ssa.Instruction) {
+			cc := callCommon(in)
+			if cc == nil {
+				return
+			}
+			m, ok := syncMapCall(cc)
+			if !ok || (m != "Store" && m != "LoadOrStore") || len(cc.Args) < 3 {
+				return
+			}
+			own, _ := fieldOwner(cc.Args[0])
+			if own != a.ProcessT {
+				return
+			}
+			mv := stripIface(cc.Args[2])
+			pt, isPtr := mv.Type().(*types.Pointer)
+			if !isPtr || pt.Elem() != types.Type(a.MetaT) {
+				return
+			}
+			base, _, _ := fieldPath(cc.Args[0])
+			base = canon(base)
+			mvc := canon(mv)
+			fn := fname(f)
+			key := "C06.G3r|" + fn
+			pos := a.P.Pos(in.Pos())
+			inst := "after a meta process is entered into its owner's table the owner's liveness is checked again, and a dead owner's new meta process is stopped"
+			isAliveCall := func(i ssa.Instruction) bool {
+				c, isCall := i.(*ssa.Call)
+				return isCall && callsNamed(i, "isAlive") && len(c.Common().Args) > 0 && canon(c.Common().Args[0]) == base
+			}
+			if hit := reaches([]Point{after(in)}, isAliveCall, isReturn); hit != nil {
+				r.Bad(rule, key, fn, pos, inst, "the function can return at "+a.P.Pos(hit.Pos())+" without looking at the owner's state after the insert: a process that terminated between the first check and the insert has already walked its meta processes — the new one is never told to stop")
+				return
+			}
+			// on the dead edge: exit pushed to the new meta process, then woken
+			var probs []string
+			n := 0
+			for _, i := range walkAvoid([]Point{after(in)}, nil, isAliveCall) {
+				c := i.(*ssa.Call)
+				_, fl, complete := boolEdges(c)
+				if !complete || len(fl) == 0 {
+					probs = append(probs, "the result of the liveness check is not a plain branch condition")
+					continue
+				}
+				n++
+				var pts []Point
+				for _, e := range fl {
+					pts = append(pts, Point{e.To(), 0})
+				}
+				isExitPush := func(i2 ssa.Instruction) bool {
+					c2 := callCommon(i2)
+					if c2 == nil || !c2.IsInvoke() || c2.Method.Name() != "Push" || len(c2.Args) == 0 {
+						return false
+					}
+					b2, _, okp := fieldPath(c2.Value)
+					if !okp || canon(b2) != mvc {
+						return false
+					}
+					// the pushed message is an exit
+					qm := stripIface(c2.Args[0])
+					isExit := false
+					if refs := qm.Referrers(); refs != nil {
+						for _, rf := range *refs {
+							if fa, ok := rf.(*ssa.FieldAddr); ok {
+								if _, fl := fieldOwner(fa); fl == "Type" {
+									for _, rr := range *fa.Referrers() {
+										if st, ok := rr.(*ssa.Store); ok {
+											if c, ok := constInt(st.Val); ok && c == exitT {
+												isExit = true
+											}
+										}
+									}
+								}
+							}
+						}
+					}
+					return isExit
+				}
+				isWake := func(i2 ssa.Instruction) bool {
+					c2 := callCommon(i2)
+					return c2 != nil && staticCallee(c2) == a.MetaWake && len(c2.Args) > 0 && canon(c2.Args[0]) == mvc
+				}
+				if hit := reaches(pts, isExitPush, isReturn); hit != nil {
+					probs = append(probs, "on the dead-owner edge a return is reachable without an exit message pushed to the new meta process")
+				} else {
+					for _, pu := range walkAvoid(pts, nil, isExitPush) {
+						if hit := reaches([]Point{after(pu)}, isWake, isReturn); hit != nil {
+							probs = append(probs, "the exit is pushed but the meta process is not woken afterwards")
+						}
+					}
+				}
+			}
+			if n == 0 {
+				probs = append(probs, "no liveness check after the insert")
+			}
+			if len(probs) > 0 {
+				r.Bad(rule, key, fn, pos, inst, strings.Join(probs, "; "))
+			} else {
+				r.OK(rule, key, fn, pos, inst, fmt.Sprintf("%d re-check(s) after the insert; dead edge pushes an exit to the new meta process and wakes it", n))
+			}
+		})
+	}
+}
